@@ -92,11 +92,25 @@ def bxor(a, b):
     return bdep(a, b)
 
 
+def balts(b):
+    """the exact alternatives a bit can be on different paths ({b} for an exact bit; the recorded set of a bit produced by
+    joins of exact bits; None for a bit that went through arithmetic the bit domain does not follow)"""
+    if b == 0 or b == 1 or b[0] in "cn":
+        return frozenset((b,))
+    return b[3] if len(b) > 3 else None
+
+
 def bjoin(a, b, cond_deps=frozenset()):
-    """join at a control-flow merge; cond_deps = deps of the branch conditions that separate the paths"""
+    """join at a control-flow merge; cond_deps = deps of the branch conditions that separate the paths.
+    A join of exact bits remembers them (4th component): 'on some path the bit is this, on another that' is a fact about
+    paths, unlike the dependence set of an arithmetic result, which only over-approximates."""
     if a == b:
         return a  # same value on both paths (0/1/copy/not, or the same unknown instance)
-    return bdep(a, b, extra=cond_deps)
+    r = bdep(a, b, extra=cond_deps)
+    xa, xb = balts(a), balts(b)
+    if xa is not None and xb is not None and len(xa | xb) <= 6:
+        return r + (xa | xb,)
+    return r
 
 
 def bits_const(v, w):
@@ -140,7 +154,7 @@ def bits_same(a, b):
             continue
         if x in (0, 1) or y in (0, 1):
             return False
-        if x[0] == "d" and y[0] == "d" and x[1] == y[1]:
+        if x[0] == "d" and y[0] == "d" and x[1] == y[1] and x[3:] == y[3:]:
             continue
         return False
     return True
@@ -229,6 +243,8 @@ class Lin:
                 s.add(b)
             else:
                 s |= b[1].atoms()
+                if b[0] in ("mul", "div", "rem"):
+                    s |= b[2].atoms()
         return s
 
     def mod(self, m):
@@ -296,6 +312,12 @@ class Lin:
             if isinstance(b, str):
                 out = out.add(Lin(0, ((b, k),)))
                 continue
+            if b[0] in ("mul", "div", "rem"):
+                out = out.add(Lin(0, ((opaque(b[0], b[1].simplify(ranges), b[2].simplify(ranges)), k),)))
+                continue
+            if b[0] == "shr":
+                out = out.add(shr_lin(b[1].simplify(ranges), b[2]).scale(k))
+                continue
             inner = b[1].simplify(ranges)
             lo, hi = inner.interval(ranges)
             if b[0] == "mod":
@@ -325,12 +347,43 @@ def base_key(b):
         return b
     if b[0] == "mod":
         return f"mod({b[1].key()},{b[2]})"
+    if b[0] in ("mul", "div", "rem"):
+        return f"{b[0]}({b[1].key()},{b[2].key()})"
+    if b[0] == "shr":
+        return f"shr({b[1].key()},{b[2]})"
     return f"sx({b[1].key()},{b[2]})"
+
+
+def opaque(kind, x, y):
+    """an uninterpreted product / truncating quotient / remainder of two closed forms; products are commutative"""
+    if kind == "mul" and x.key() > y.key():
+        x, y = y, x
+    return (kind, x, y)
+
+
+def shr_lin(x, k):
+    """floor(x / 2^k) as a closed form.  x - (x mod 2^k) shifted is just x shifted (masking the low part first)."""
+    if k == 0:
+        return x
+    if x.is_const():
+        return Lin(x.c >> k)
+    m = 1 << k
+    # pattern: B - (B mod 2^k)
+    for b, c in x.terms:
+        if c == -1 and not isinstance(b, str) and b[0] == "mod" and b[2] == m:
+            rest = x.add(Lin(0, ((b, 1),)))
+            if rest.mod(m) == Lin(0, ((b, 1),)):
+                return shr_lin(rest, k)
+    return Lin(0, ((("shr", x, k), 1),))
 
 
 def base_pretty(b):
     if isinstance(b, str):
         return b
+    if b[0] in ("mul", "div", "rem"):
+        return f"({b[1].pretty()}) {({'mul': '*', 'div': '/', 'rem': '%'})[b[0]]} ({b[2].pretty()})"
+    if b[0] == "shr":
+        return f"(({b[1].pretty()}) >> {b[2]})"
     if b[0] == "mod":
         m = b[2]
         ms = f"2^{m.bit_length()-1}" if m & (m - 1) == 0 else str(m)
@@ -347,6 +400,25 @@ def base_interval(b, ranges):
         if q * b[2] <= lo and hi < (q + 1) * b[2]:
             return lo - q * b[2], hi - q * b[2]
         return 0, b[2] - 1
+    if b[0] == "mul":
+        (l1, h1), (l2, h2) = b[1].interval(ranges), b[2].interval(ranges)
+        c = [l1 * l2, l1 * h2, h1 * l2, h1 * h2]
+        return min(c), max(c)
+    if b[0] in ("div", "rem"):
+        (l1, h1), (l2, h2) = b[1].interval(ranges), b[2].interval(ranges)
+        m = max(abs(l1), abs(h1))
+        if b[0] == "div":
+            if l1 >= 0 and l2 > 0:
+                return l1 // h2, h1 // l2
+            return -m, m
+        my = max(abs(l2), abs(h2))
+        r = min(m, my - 1) if my > 0 else m
+        if l1 >= 0:
+            return 0, r
+        return -r, r
+    if b[0] == "shr":
+        lo, hi = b[1].interval(ranges)
+        return lo >> b[2], hi >> b[2]
     w = b[2]
     lo, hi = b[1].interval(ranges)
     if -(1 << (w - 1)) <= lo and hi < (1 << (w - 1)):
@@ -359,6 +431,16 @@ def base_eval(b, env):
         return env[b]
     if b[0] == "mod":
         return b[1].eval(env) % b[2]
+    if b[0] == "mul":
+        return b[1].eval(env) * b[2].eval(env)
+    if b[0] in ("div", "rem"):
+        x, y = b[1].eval(env), b[2].eval(env)
+        if y == 0:
+            return 0
+        q = abs(x) // abs(y) * (1 if (x < 0) == (y < 0) else -1)
+        return q if b[0] == "div" else x - q * y
+    if b[0] == "shr":
+        return b[1].eval(env) >> b[2]
     v = b[1].eval(env) % (1 << b[2])
     return v - (1 << b[2]) if v >= (1 << (b[2] - 1)) else v
 
